@@ -144,15 +144,27 @@ class Run:
             kf = json.load(open(os.path.join(VERIF, "known_findings.json")))
         except FileNotFoundError:
             return {}
-        return {e["key"]: e for e in kf.get("findings", []) if e.get("property") == self.prop and e.get("status") == "open"}
+        return [e for e in kf.get("findings", []) if e.get("property") == self.prop and e.get("status") == "open"]
+
+    @staticmethod
+    def match_known(known, key):
+        import fnmatch
+        for e in known:
+            if fnmatch.fnmatchcase(key, e["key"]):
+                return e
+        return None
 
     def finish(self, level="proof", rule="", extra_cov=None):
         known = self.known()
         lines = []
         violations = 0
+        reported = set()
         for f in self.findings:
-            if f.key in known and f.concrete:
-                lines.append(f"KNOWN-FINDING: property={self.prop} {f.key}: {known[f.key].get('what', f.what)}")
+            e = self.match_known(known, f.key) if f.concrete else None
+            if e is not None:
+                if e["key"] not in reported:
+                    reported.add(e["key"])
+                    lines.append(f"KNOWN-FINDING: property={self.prop} {e['key']}: {e.get('what', f.what)}")
                 continue
             violations += 1
             rp = os.path.join(BUILD, "replay", f"{self.prop}-{re.sub(r'[^A-Za-z0-9_.-]+', '_', f.key)[:80]}.json")
